@@ -588,7 +588,11 @@ impl AssemblyCode {
                                 }
                             }
                             accumulator = Some(inst.dasm_operand.clone());
-                            flags = FlagsState::A;
+                            // A load that is removed while the flags described something
+                            // else leaves them as they were: they still don't describe A
+                            if !remove_second || flags == FlagsState::A {
+                                flags = FlagsState::A;
+                            }
                         }
                         AsmMnemonic::LDX => {
                             if let Some(v) = &accumulator {
